@@ -9,6 +9,26 @@ TRUST = ("Trusted base: clang 14 front end and its debug info, the LLVM-14 IR re
          "the rule tables documented in DESIGN.md. ")
 
 CLAIMS = {
+    "C07": dict(
+        category="other",
+        technique="static analysis: record-window/stride inequality over induction variables of list-walking loops, provenance of every state write in the message-effect functions to a keyed lookup with dominating non-NULL test (interprocedural through helpers), path-segment write sets of boolean status fields (co-occurrence belief), interval-by-interval comparison of sibling conversion ladders, must-pass-through of the optimistic update",
+        text=("Decides structural necessary conditions only: list payloads are walked in non-overlapping record windows (no byte read in two roles); in the 21 message-effect functions "
+              "every write to tracked state goes through a keyed-lookup reference behind its non-NULL test, so unknown keys write nothing; status flags assigned together on one path are "
+              "assigned together on every path raising one of them; the two current-code ladders agree on all 22 interval/assignment pairs; the optimistic update runs on exactly the "
+              "submitting paths. Conversion values against the BiDiB tables, reset values and order dependence of the fold are not decided."),
+        note=TRUST + "Effect functions = void functions of src/state called by the dispatcher plus the two optimistic-update entry points.",
+        design="DESIGN.md section 4, C07",
+    ),
+    "C09": dict(
+        category="other",
+        technique="static analysis: constant-propagating path walk of every command function (result vs. submit calls vs. direct state writes), must-pass-through of the optimistic update, who-may-compare rule for identifier matching with canary, interval analysis of the speed magnitude and calibration subscript, parser-derived field invariants (function bit <= 31, calibration length) by exact state-machine walk, range tiling of the function-group ladder, provenance of destinations to a connected board's stored address",
+        text=("Decides structural necessary conditions only: in the 15 command functions a non-zero result implies no submit and no state write, a zero result implies a submit call (83 paths); "
+              "every submit takes its destination from a configured board's stored address behind that board's connected test; identifiers are compared exactly (115 sites); the speed "
+              "magnitude handed to the encoder is within 0..126 and the calibrated step index within the parser-guaranteed list length; each function-group branch preserves the bits of "
+              "its group byte that the branch can be handling, and the group index is bounded by the parser's bit <= 31 rule. Encoded values (aspect bytes, speed byte, function bits) are not decided."),
+        note=TRUST + "Two construction-table exemptions (DCC accessory state exists for every DCC mapping) are listed in the evidence notes.",
+        design="DESIGN.md section 4, C09",
+    ),
     "C13": dict(
         category="other",
         technique="static analysis: lockset balance over the start call tree, constant-propagating path walk of the start functions (error => stop, result in {0,1}), result-consumption rule, loop-progress rule, exact exploration of the parser state machines with NULL/uninitialised tracking of record fields (incl. by-value callees in the caller's abstract record), by-value double-free rule",
